@@ -10,6 +10,8 @@ Core Lean only. Nothing here is executed by the driver; these are SPEC-side defi
   of `n` in document order, **not** descending into the value of the binding with identity `j`.
 -/
 namespace Nima
+-- name tokens are compared by spelling in this file (see `NameCmp` in Model/Edit.lean)
+attribute [local instance] NameCmp.spelled
 
 namespace Node
 
